@@ -491,6 +491,8 @@ class WorkQueue:
         whose values have not been delivered yet. When it has child groups,
         these values (and the streams produced by these tasks) are collected,
         so that they are delivered before the child groups are promoted.
+        Otherwise only the values of tasks are collected whose other groups
+        have all left the graph (failed), since nobody else will deliver them.
         """
         if non_empty_new_groups is None:
             non_empty_new_groups = []
@@ -503,9 +505,14 @@ class WorkQueue:
                 else:
                     del group_nodes[new_group]
                     child_groups = new_group_node.child_groups
-                    if child_groups and values is not None and new_streams is not None:
+                    if values is not None and new_streams is not None:
+                        # without child groups, only the tasks that no surviving
+                        # group shares would otherwise never be delivered
                         self._collect_completed_tasks(
-                            new_group_node, values, new_streams
+                            new_group_node,
+                            values,
+                            new_streams,
+                            orphaned_only=not child_groups,
                         )
                     self._prune_empty_groups(
                         child_groups, non_empty_new_groups, values, new_streams
@@ -513,11 +520,22 @@ class WorkQueue:
         return non_empty_new_groups
 
     def _collect_completed_tasks(
-        self, group_node: _GroupNode, values: list[Any], new_streams: list[Stream]
+        self,
+        group_node: _GroupNode,
+        values: list[Any],
+        new_streams: list[Stream],
+        orphaned_only: bool = False,
     ) -> None:
-        """Collect the values and streams of the completed tasks of a group."""
+        """Collect the values and streams of the completed tasks of a group.
+
+        With ``orphaned_only``, only tasks are collected that are not shared with
+        a group that is still part of the graph (and will deliver them).
+        """
         task_nodes = self._task_nodes
+        group_nodes = self._group_nodes
         for task in list(group_node.tasks):
+            if orphaned_only and any(group in group_nodes for group in task.groups):
+                continue
             task_node = task_nodes.get(task)
             if task_node:  # pragma: no branch
                 value = task_node.value
